@@ -7,7 +7,7 @@ ENGINE = {'name': 'e2e',
  'timeout': 900,
  'serves': ['C01'],
  'rule': 'end-to-end scenarios on real layer4 servers started by caddy.Run over an in-memory network (net.Pipe: the client write sizes are '
-         'the server read segmentation): route lists generated from the shipped handlers proxy_protocol (v1/v2 header in the stream), tee '
+         'the server read segmentation): route lists generated from the shipped handlers proxy_protocol (header in the stream, one of: v1 TCP4, v2 PROXY TCP4, v1 UNKNOWN with and without the rest of the line, v2 LOCAL with and without an address block, v2 PROXY/UNSPEC), tee '
          '(recording branch), throttle (unlimited rate), subroute (nested route lists), echo, with scripted matchers (need k bytes by '
          'Read or MatchingBytes, k in 0..MaxMatchingBytes biased to 2048/4096/8192 +-1, answer yes/no) and recording handlers (consume c bytes '
          'then continue / read to EOF, reader buffers 1..32768); position-coded client streams of 0..4*MaxMatchingBytes bytes; client '
